@@ -36,11 +36,12 @@ Definition pair_of (e : errk) : Z * Z :=
 Inductive case :=
 | SnapCase (s : snap) (implIdleStart implNextIdle implNextKA : Z) (timer : option Z)
 | WakeCase (s : snap) (now : Z) (obs : Z)   (* 0 continue, 1 keep-alive PING, 2 handshake timeout, 3 idle timeout *)
-| ParamsCase (cfgIdle peerIdle kap obsIdle obsKai : Z)
+| ParamsCase (cfgIdle peerIdle peerAdv kap obsIdle obsKai : Z)
 | CloseCase (client sentFirstPacket : bool) (reqs : list (Z * Z * bool))
             (obsCause obsApi : Z * Z) (sentClose blackhole : bool) (peer : option (Z * Z)) (routing : Z)
 | ClosedConnCase (start : Z) (replies : list bool)
-| EarlyExitCase (routing : Z) (apiClosed : bool).  (* Dial whose StartHandshake fails: what is left behind *)
+| EarlyExitCase (routing : Z) (apiClosed : option bool).  (* Dial whose StartHandshake fails: what is left behind
+                                                             (apiClosed only observable while the Conn is still registered) *)
 
 Inductive obs :=
 | SnapObs (hsTimeout idleStart nextIdle nextKA deadline : Z)
@@ -62,8 +63,8 @@ Definition model_obs (c : case) : obs :=
     SnapObs (hsTimeout (cf m)) (idleStart m) (nextIdle m (sn_pto s)) (nextKA m (sn_pto s))
             (maybeResetTimer m (sn_pto s) (sn_ack s) (sn_loss s))
   | WakeCase s now _ => WakeObs (decision_code (decide (st_of s) now (sn_pto s)))
-  | ParamsCase cfgIdle peerIdle kap _ _ =>
-    let m := applyTP (init {| c_client := true; c_keepAlivePeriod := kap; c_maxIdleTimeout := cfgIdle; c_hsIdleTimeout := 0 |} 1) peerIdle in
+  | ParamsCase cfgIdle peerIdle peerAdv kap _ _ =>
+    let m := applyTP (init {| c_client := true; c_keepAlivePeriod := kap; c_maxIdleTimeout := cfgIdle; c_hsIdleTimeout := 0 |} 1) peerIdle peerAdv in
     ParamsObs (idleTimeout m) (kaInterval m)
   | CloseCase client sentFirstPacket reqs _ _ _ _ _ _ =>
     let s := fold_left (fun s (q : Z * Z * bool) => let '(k, c, imm) := q in
@@ -71,7 +72,7 @@ Definition model_obs (c : case) : obs :=
     match closeErr s with
     | None => CloseObs (0, 0) (0, 0) false None 0
     | Some ce =>
-      let a := close_action client sentFirstPacket ce in
+      let a := close_action client sentFirstPacket false ce in
       CloseObs (pair_of (ctx_cause ce)) (pair_of (mapped_err ce))
                (match a with ActSendClose _ _ => true | _ => false end)
                (match a with ActSendClose isApp code => Some (if isApp then 3 else 4, code) | _ => None end)
@@ -79,8 +80,9 @@ Definition model_obs (c : case) : obs :=
     end
   | ClosedConnCase start replies => ClosedConnObs (closed_replies start (List.length replies))
   | EarlyExitCase _ _ =>
-    let x := ExitEarly (EOther 0) in
-    EarlyExitObs (exit_routing true false x 0 1) (match exit_fanout x with Some _ => true | None => false end)
+    (* StartHandshake fails: destroyImpl(err), then the regular close path *)
+    let ce := start_failure (EOther 0) in
+    EarlyExitObs (exit_routing true false false ce 0 1) (match exit_fanout ce with ENil => false | _ => true end)
   end.
 
 Definition pair_eqb (a b : Z * Z) : bool := (fst a =? fst b) && (snd a =? snd b).
@@ -97,7 +99,7 @@ Definition check_case (c : case) : bool :=
     (sn_hsTimeout s =? ht) && (is =? is') && (ni =? ni') && (nk =? nk') &&
     match timer with Some t => t =? d | None => true end
   | WakeCase _ _ o, WakeObs d => o =? d
-  | ParamsCase _ _ _ oi ok, ParamsObs i k => (oi =? i) && (ok =? k)
+  | ParamsCase _ _ _ _ oi ok, ParamsObs i k => (oi =? i) && (ok =? k)
   | CloseCase _ _ _ cause api sent blackhole peer routing, CloseObs cause' api' sent' peer' routing' =>
     pair_eqb cause cause' && pair_eqb api api' && Bool.eqb sent sent' && (routing =? routing') &&
     (blackhole ||
@@ -106,7 +108,7 @@ Definition check_case (c : case) : bool :=
      | None, None => true
      | _, _ => false
      end)
-  | EarlyExitCase r c, EarlyExitObs r' c' => (r =? r') && Bool.eqb c c'
+  | EarlyExitCase r c, EarlyExitObs r' c' => (r =? r') && match c with Some b => Bool.eqb b c' | None => true end
   | ClosedConnCase _ r, ClosedConnObs r' => bools_eqb r r'
   | _, _ => false
   end.
